@@ -413,6 +413,9 @@ func c19Subnets(k int) string {
 }
 
 func c19SelectorVersion(rm *RegistrationManager, max int) int {
+	if rm.PhantomSelector == nil {
+		return -3
+	}
 	got := -1
 	for k := 0; k <= max; k++ {
 		if _, ok := rm.PhantomSelector.Networks[uint(1000+k)]; ok {
@@ -812,6 +815,12 @@ func (w *c19World) reloadCase(out *vlib.Out, evs []c19Event) {
 			gv = k
 		}
 		nsv := c19SelectorVersion(rm, len(evs))
+		if rm.PhantomSelector == nil {
+			fail("C19:failed-reload-changed-state", fmt.Sprintf("after reload %d (%s/%s) the station has no phantom selector at all (the next registration dereferences nil)", k, e.conf, e.subnets))
+			dead = true
+			outs = append(outs, "panic")
+			continue
+		}
 		if rm.Selector() != rm.PhantomSelector {
 			fail("C19:reload-part-torn", fmt.Sprintf("after reload %d Selector() does not return the selector in force", k))
 		}
